@@ -1,5 +1,7 @@
 package main
 
+import "golang.org/x/tools/go/ssa"
+
 // CtxObj models sdk.Context: block height, stores, event manager.
 type CtxObj struct {
 	height *Term
@@ -15,4 +17,67 @@ type StoreObj struct {
 type storeEntry struct {
 	key []*Term
 	val Value
+}
+
+// ---------- addresses ----------
+// bech32 is modelled as a bijection between 20-byte addresses and the strings
+// "addr:"+<20 raw bytes>; every other string is malformed.
+
+func init() {
+	reg("verif_Addr", func(p *Path, fn *ssa.Function, a []Value) Value {
+		i := p.concreteInt(a[0], "verif_Addr index")
+		b := make([]byte, 20)
+		for k := range b {
+			b[k] = byte(i + 1)
+		}
+		return StrV{s: "addr:" + string(b)}
+	})
+	fromBech := func(p *Path, fn *ssa.Function, a []Value) Value {
+		s := a[0].(StrV)
+		n := strLen(s)
+		bad := func(msg string) Value { return TupleV{SliceV{isNil: true}, p.newError(msg, nil)} }
+		if n == 0 {
+			return bad("empty address string is not allowed")
+		}
+		if n != 25 {
+			return bad("decoding bech32 failed")
+		}
+		bs := strBytes(s)
+		pre := "addr:"
+		cs := make([]*Term, 5)
+		for i := 0; i < 5; i++ {
+			cs[i] = byteEq(bs[i], mkInt64(int64(pre[i])))
+		}
+		if !p.decide(tAnd(cs...)) {
+			return bad("decoding bech32 failed")
+		}
+		vals := make([]Value, 20)
+		for i := range vals {
+			vals[i] = bs[5+i]
+		}
+		return TupleV{p.sliceFrom(vals), IfaceV{}}
+	}
+	reg(sdkT+"AccAddressFromBech32", fromBech)
+	reg("("+sdkT+"AccAddress).String", func(p *Path, fn *ssa.Function, a []Value) Value {
+		s := a[0].(SliceV)
+		if s.len == 0 {
+			return StrV{}
+		}
+		if s.len != 20 {
+			p.unsup("AccAddress.String on %d-byte address", s.len)
+		}
+		bs := []*Term{}
+		for _, c := range "addr:" {
+			bs = append(bs, mkInt64(int64(c)))
+		}
+		bs = append(bs, sliceTerms(s)...)
+		return mkStr(bs)
+	})
+	reg(sdkT+"VerifyAddressFormat", func(p *Path, fn *ssa.Function, a []Value) Value {
+		s := a[0].(SliceV)
+		if s.len != 20 {
+			return p.newError("incorrect address length", nil)
+		}
+		return IfaceV{}
+	})
 }
